@@ -1245,6 +1245,34 @@ def shard_inverse(ctx: Ctx) -> None:
                     ctx.violation(f"slip132:address-differs:{f}", f"address_from_xpub({xpub}) -> {o[1]!r}, reference one of {sorted(allowed)}", {"xpub": xpub, "field": f})
                 ctx.bulk("inv:slip132", 1)
                 ctx.classes[f"net:{net}:xpub"] += 1
+                # an extended key handed to the constructors beside a declared network: accepted exactly when that
+                # network shares the version bytes the key was written with, and the result is the declared network's
+                if f == "bip32_pub":
+                    xprv = ra.encode_xkey(nd.value(net, "bip32_prv"), 3, b"\x01\x02\x03\x04", 7, _hash_classes(rng, 32), b"\x00" + q.to_bytes(32, "big"))
+                    for decl in ra.NETWORK_NAMES:
+                        shares = decl in nd.sharing(f, version)
+                        hrp_d = nd.value(decl, "hrp")
+                        for name, call, want in (
+                                ("pub_keyinfo_from_key:xpub", lambda: L.pub_keyinfo_from_key(xpub, decl), (csec, decl)),
+                                ("pub_keyinfo_from_key:xprv", lambda: L.pub_keyinfo_from_key(xprv, decl), (csec, decl)),
+                                ("b58.p2pkh:xpub", lambda: L.b58.p2pkh(xpub, decl), r58.check_encode(nd.value(decl, "p2pkh") + _h160(csec))),
+                                ("b32.p2wpkh:xpub", lambda: L.b32.p2wpkh(xpub, decl), r32.segwit_encode(hrp_d, 0, _h160(csec))),
+                                ("b58.p2wpkh_p2sh:xpub", lambda: L.b58.p2wpkh_p2sh(xpub, decl),
+                                 r58.check_encode(nd.value(decl, "p2sh") + _h160(b"\x00\x14" + _h160(csec)))),
+                                ("ScriptPubKey.p2pkh:xpub", lambda: L.ScriptPubKey.p2pkh(xpub, network=decl).address,
+                                 r58.check_encode(nd.value(decl, "p2pkh") + _h160(csec)))):
+                            o = outcome(call)
+                            case = {"key_network": net, "declared": decl, "xpub": xpub}
+                            got = tuple(o[1]) if o[0] == "ok" and isinstance(o[1], tuple) else o[1]
+                            if o[0] == "raise" and not is_lib_exc(o[1]):
+                                ctx.violation(f"xkey-declared-network:foreign-exception:{name}", f"{name} raised {o[1]!r}", case)
+                            elif shares and (o[0] == "raise" or got != want):
+                                ctx.violation(f"xkey-declared-network:refused-or-differs:{name}",
+                                              f"{name} with a {net} key declared as {decl} (which shares its version bytes) -> {o[1]!r}, reference {want!r}", case)
+                            elif not shares and o[0] == "ok":
+                                ctx.violation(f"xkey-declared-network:accepted-across-prefix:{name}",
+                                              f"{name} accepted a {net} key declared as {decl}, which does not share its version bytes -> {o[1]!r}", case)
+                            ctx.bulk("inv:xkey-declared-network", 1)
     ctx.sample("inverse", {"rounds": rounds, "templates": sorted({k for k, _ in scripts()})})
     ctx.exhaustive.append("address(script, network) for every output template x five networks, future witness versions 1..16 x 9 lengths")
     j.done()
